@@ -811,7 +811,7 @@ func totalGsubsubStructured(r *Rng) []totalGsubsubTab {
 	for _, cc := range []int{1, 2, 5} {
 		add("4.1-cc-"+strconv.Itoa(cc), 4, s41(c1(7), []set{one(30, cc, span(50, cc-1)...)}, []int{0}, false))
 	}
-	add("4.1-cc-0", 4, s41(c1(7), []set{one(30, 0)}, []int{0}, false)) // 65535 components: err:io
+	add("4.1-cc-0", 4, s41(c1(7), []set{one(30, 0)}, []int{0}, false)) // rejected since the zero-count repair (err:invalid); before: 65535 components, err:io
 	add("4.1-cc-0-tail", 4, s41(c1(7), []set{one(30, 0, span(1, 40)...)}, []int{0}, false))
 	add("4.1-cc-0-second", 4, s41(c1(7), []set{{ligs: []lig{{30, 2, []int{5}}, {31, 0, nil}}, refs: []int{0, 1}}}, []int{0}, false))
 	add("4.1-cc+1", 4, s41(c1(7), []set{one(30, 4, 7, 8)}, []int{0}, true))
